@@ -594,7 +594,31 @@ def k_statutory(d):
     return {'reproduced': rep, 'detail': 'module %s: foreign literals present %s, official literals absent %s' % (inspect.getmodule(cls).__name__, bad_present, missing_absent)}
 
 
-KINDS = {'statutory': k_statutory, 'field_roundtrip': k_field_roundtrip, 'solution_roundtrip': k_solution_roundtrip, 'fdf_value': k_fdf_value, 'cli_session': k_cli_session, 'field_value': k_field_value, 'figure_tax': k_figure_tax, 'solve': k_solve, 'program': k_program, 'input_value': k_input_value}
+def k_metamorphic(d):
+    a = run_solve(d['year'], d['forms'], d['inputs'])
+    inp2 = dict(d['inputs'])
+    base = Fraction(inp2.get(d['input'], '0') or '0')
+    delta = Fraction(int(d['delta_cents']), 100)
+    inp2[d['input']] = str(float(base + delta)) if (base + delta).denominator not in (1, 2, 4, 5, 10, 20, 25, 50, 100) else '%.2f' % float(base + delta)
+    b = run_solve(d['year'], d['forms'], inp2)
+    if not (a['solved'] and b['solved']):
+        return {'reproduced': False, 'detail': 'solved=%s/%s' % (a['solved'], b['solved'])}
+    g = lambda r, n: Fraction(r['solution'].get(n) or '0')
+    if d['which'] == 'wages':
+        rep = g(b, '1040.24') < g(a, '1040.24')
+        det = '1040.24 %s -> %s' % (a['solution'].get('1040.24'), b['solution'].get('1040.24'))
+    elif d['which'] == 'deduction':
+        rep = g(b, '1040.24') > g(a, '1040.24')
+        det = '1040.24 %s -> %s' % (a['solution'].get('1040.24'), b['solution'].get('1040.24'))
+    else:
+        x1 = g(a, '1040.34') - g(a, '1040.37')
+        x2 = g(b, '1040.34') - g(b, '1040.37')
+        rep = (x2 - x1) != delta
+        det = 'refund-owed %s -> %s for delta %s' % (float(x1), float(x2), float(delta))
+    return {'reproduced': bool(rep), 'detail': det}
+
+
+KINDS = {'metamorphic': k_metamorphic, 'statutory': k_statutory, 'field_roundtrip': k_field_roundtrip, 'solution_roundtrip': k_solution_roundtrip, 'fdf_value': k_fdf_value, 'cli_session': k_cli_session, 'field_value': k_field_value, 'figure_tax': k_figure_tax, 'solve': k_solve, 'program': k_program, 'input_value': k_input_value}
 
 
 def main():
